@@ -523,4 +523,148 @@ theorem doPastes_pn {env : List Entry} {l : List PTok} {ks : List Tok} (hpn : PN
       rw [doPastes_tok, doPastes_paste done s1 s2 items2 m.tok hpt', h1]
 
 
+/-! ## `replaceParams` on a replacement list with `##` -/
+
+/-- the items `replaceParams` makes of the rest of a replacement list; `before`: the tokens already passed, last
+first.  A parameter next to `##` is replaced by the raw argument, any other by the expanded one. -/
+def itemsP (largs eargs : List (List HTok)) : List PTok → List PTok → List Item
+  | _, [] => []
+  | before, t :: rest =>
+    if t.tok.isWhitespace then itemsP largs eargs (t :: before) rest
+    else match t.tok with
+      | .concat => .paste :: itemsP largs eargs (t :: before) rest
+      | .arg i =>
+        (if firstTok before == some .concat || firstTok rest == some .concat then largs.getD i [] else eargs.getD i []).map
+          Item.tok ++ itemsP largs eargs (t :: before) rest
+      | k => .tok ⟨specBodyTok k, []⟩ :: itemsP largs eargs (t :: before) rest
+
+/-- conditions on a replacement list (with `##`) under which `itemsP` describes `replaceParams` -/
+structure BodyOK (np : Nat) (mb : List PTok) : Prop where
+  noHash : ∀ t ∈ mb, t.tok ≠ .hashhash
+  noParamName : ∀ t ∈ mb, ∀ s, t.tok = .id s → ∀ i, s ≠ paramName i
+  argRange : ∀ t ∈ mb, ∀ i, t.tok = .arg i → i < np
+
+theorem BodyOK.tail {np : Nat} {t : PTok} {r : List PTok} (h : BodyOK np (t :: r)) : BodyOK np r :=
+  ⟨fun x hx => h.noHash x (by simp [hx]), fun x hx => h.noParamName x (by simp [hx]),
+   fun x hx => h.argRange x (by simp [hx])⟩
+
+theorem specBodyTok_eq_hashhash {k : Tok} (h : k ≠ .hashhash) : specBodyTok k = .hashhash ↔ k = .concat := by
+  cases k <;> simp [specBodyTok] at h ⊢
+
+theorem firstTok_mem {l : List PTok} {k : Tok} (h : firstTok l = some k) : ∃ t ∈ l, t.tok = k := by
+  induction l with
+  | nil => simp [firstTok] at h
+  | cons x r ih =>
+    unfold firstTok at h
+    split at h
+    · obtain ⟨t, ht, htk⟩ := ih h; exact ⟨t, by simp [ht], htk⟩
+    · simp only [Option.some.injEq] at h; exact ⟨x, by simp, h⟩
+
+/-- `replaceParams` on the rest of a replacement list -/
+theorem replaceParams_paste (ex : List HTok → Except SErr (List HTok)) (np : Nat) (largs eargs : List (List HTok))
+    (hex : ∀ i, i < np → ∃ ea, eargs[i]? = some ea ∧ ex (largs.getD i []) = .ok ea)
+    (rest : List PTok) : ∀ (before : List PTok), BodyOK np rest → (∀ t ∈ before, t.tok ≠ .hashhash) →
+    (∀ i, i ∈ pasteParams before rest → (largs.getD i []).isEmpty = false) →
+    replaceParams ex (paramNames np) largs ((firstTok before).map specBodyTok) ((ppTokens rest).map specBodyTok) =
+      .ok (itemsP largs eargs before rest) := by
+  induction rest with
+  | nil => intro before _ _ _; rfl
+  | cons t r ih =>
+    intro before hb hbef hne
+    have hbef' : ∀ x ∈ t :: before, x.tok ≠ .hashhash := by
+      intro x hx
+      rcases List.mem_cons.mp hx with rfl | hx
+      · exact hb.noHash x (by simp)
+      · exact hbef x hx
+    by_cases hw : t.tok.isWhitespace = true
+    · have hft : firstTok (t :: before) = firstTok before := by simp [firstTok, hw]
+      have := ih (t :: before) hb.tail hbef' (by
+        intro i hi
+        apply hne i
+        unfold pasteParams
+        cases htk : t.tok <;> simp [htk, Tok.isWhitespace] at hw <;> simpa [htk] using hi)
+      rw [hft] at this
+      rw [ppTokens_cons_ws t r hw]
+      simp only [itemsP, hw, if_true]
+      exact this
+    · have hw' : t.tok.isWhitespace = false := by simpa using hw
+      have hft : firstTok (t :: before) = some t.tok := by simp [firstTok, hw']
+      rw [ppTokens_cons t r hw', List.map_cons]
+      -- the neighbours
+      have hprev : ((firstTok before).map specBodyTok = some Tok.hashhash) ↔ firstTok before = some .concat := by
+        cases hfb : firstTok before with
+        | none => simp
+        | some k =>
+          obtain ⟨x, hx, hxk⟩ := firstTok_mem hfb
+          have := specBodyTok_eq_hashhash (k := k) (by rw [← hxk]; exact hbef x hx)
+          simp [this]
+      have hnext : (((ppTokens r).map specBodyTok).head? = some Tok.hashhash) ↔ firstTok r = some .concat := by
+        rw [firstTok_eq_head]
+        cases hpp : ppTokens r with
+        | nil => simp
+        | cons k ks =>
+          obtain ⟨x, hx, hxk⟩ := mem_ppTokens (l := r) (k := k) (by rw [hpp]; simp)
+          have := specBodyTok_eq_hashhash (k := k) (by rw [← hxk]; exact hb.noHash x (by simp [hx]))
+          simp [this]
+      have hrec := ih (t :: before) hb.tail hbef'
+      rw [hft] at hrec
+      simp only [Option.map_some] at hrec
+      unfold replaceParams
+      simp only [itemsP, hw', Bool.false_eq_true, if_false]
+      cases htk : t.tok with
+      | concat =>
+        have hrec' := hrec (by
+          intro i hi; apply hne i; unfold pasteParams; simpa [htk] using hi)
+        rw [htk] at hrec'
+        have hsb : specBodyTok Tok.concat = .hashhash := rfl
+        rw [hsb] at hrec'
+        simp only [hsb, if_true, hrec']
+        rfl
+      | arg i =>
+        have hi : i < np := hb.argRange t (by simp) i htk
+        obtain ⟨ea, hea, hexa⟩ := hex i hi
+        have hrec' := hrec (by
+          intro j hj; apply hne j; unfold pasteParams; simp only [htk]; split
+          · exact List.mem_cons_of_mem _ hj
+          · exact hj)
+        rw [htk] at hrec'
+        have hne1 : specBodyTok (Tok.arg i) ≠ .hashhash := by simp [specBodyTok]
+        simp only [hne1, if_false, paramIndex_arg np i hi, hrec']
+        by_cases hadj : (firstTok before == some .concat || firstTok r == some .concat) = true
+        · have hntp : (decide ((firstTok before).map specBodyTok = some Tok.hashhash) ||
+              decide (((ppTokens r).map specBodyTok).head? = some Tok.hashhash)) = true := by
+            simp only [Bool.or_eq_true, beq_iff_eq] at hadj
+            rcases hadj with h1 | h1
+            · simp [hprev.mpr h1]
+            · simp [hnext.mpr h1]
+          have hnemp : (largs.getD i []).isEmpty = false := by
+            apply hne i
+            unfold pasteParams
+            simp only [htk, hadj, if_true]
+            exact List.mem_cons_self
+          simp only [hntp, if_true, hadj, hnemp, Bool.false_eq_true, if_false]
+        · have hntp : (decide ((firstTok before).map specBodyTok = some Tok.hashhash) ||
+              decide (((ppTokens r).map specBodyTok).head? = some Tok.hashhash)) = false := by
+            simp only [Bool.or_eq_true, beq_iff_eq, not_or] at hadj
+            have h1 : ¬ ((firstTok before).map specBodyTok = some Tok.hashhash) := fun hh => hadj.1 (hprev.mp hh)
+            have h2 : ¬ (((ppTokens r).map specBodyTok).head? = some Tok.hashhash) := fun hh => hadj.2 (hnext.mp hh)
+            rw [decide_eq_false h1, decide_eq_false h2]; rfl
+          have hadj' : (firstTok before == some .concat || firstTok r == some .concat) = false := by simpa using hadj
+          simp only [hntp, Bool.false_eq_true, if_false, hexa, hadj']
+          simp [List.getD, hea]
+      | hashhash => exact absurd htk (hb.noHash t (by simp))
+      | _ =>
+        have hrec' := hrec (by
+          intro j hj; apply hne j; unfold pasteParams; simpa [htk] using hj)
+        rw [htk] at hrec'
+        have h1 : ∀ i, t.tok ≠ .arg i := by intro i hh; rw [htk] at hh; cases hh
+        have hpi := paramIndex_other np t.tok h1 (fun s hs i => hb.noParamName t (by simp) s hs i)
+        rw [htk] at hpi
+        have hne1 : specBodyTok t.tok ≠ .hashhash := by
+          rw [htk]; simp [specBodyTok]
+        rw [htk] at hne1
+        simp only [hne1, if_false, hpi, hrec']
+        rfl
+
+
 end RsslVerif.Lemmas.MacroTamePSpec
